@@ -6,8 +6,10 @@ import (
 	"fmt"
 	"os"
 	"path/filepath"
+	"regexp"
 	"sort"
 	"strings"
+	"sync"
 	"time"
 
 	"github.com/martian-lang/martian/martian/core"
@@ -34,12 +36,12 @@ func Shapes(thorough bool) []DfCase {
 		return DfCase{Family: "dataflow", Params: d}
 	}
 	out := []DfCase{
-		df(progen.DataflowParams{Extra: "chain"}),                                   // GEN -> ID -> LEN
-		df(progen.DataflowParams{Kind: "int", Cons: "add"}),                        // consumer sorts before producer
-		df(progen.DataflowParams{Cons: "sums"}),                                    // split stage, 2 chunks
-		df(progen.DataflowParams{Map: "top", Extra: "chain"}),                      // run-time forks
-		df(progen.DataflowParams{Dis: "gen-true", DisAt: "cons", Extra: "chain"}),  // run-time disabled branch
-		df(progen.DataflowParams{Wrap: 1, Map: "inner"}),                           // mapped call in a sub-pipeline
+		df(progen.DataflowParams{Extra: "chain"}),                                 // GEN -> ID -> LEN
+		df(progen.DataflowParams{Kind: "int", Cons: "add"}),                       // consumer sorts before producer
+		df(progen.DataflowParams{Cons: "sums"}),                                   // split stage, 2 chunks
+		df(progen.DataflowParams{Map: "top", Extra: "chain"}),                     // run-time forks
+		df(progen.DataflowParams{Dis: "gen-true", DisAt: "cons", Extra: "chain"}), // run-time disabled branch
+		df(progen.DataflowParams{Wrap: 1, Map: "inner"}),                          // mapped call in a sub-pipeline
 	}
 	if thorough {
 		out = append(out,
@@ -55,6 +57,25 @@ func Shapes(thorough bool) []DfCase {
 	return out
 }
 
+// CrashFileShapes: pipelines whose top-level outputs are files:
+// post-processing moves them to outs/ and rewrites the top-level _outs (C05).
+func CrashFileShapes(thorough bool) []DfCase {
+	var out []DfCase
+	ff := func(d progen.FileParams) DfCase {
+		d.Vol, d.TopOut, d.Size = "call", true, 2
+		if d.Mode == "" {
+			d.Mode = "rolling"
+		}
+		return DfCase{Family: "fileflow", Ff: &d}
+	}
+	out = append(out, ff(progen.FileParams{Out: "f", Prod: "filew"}), ff(progen.FileParams{Out: "fs", Prod: "splitw"}))
+	if thorough {
+		out = append(out, ff(progen.FileParams{Out: "s", Prod: "filew"}), ff(progen.FileParams{Out: "fm", Prod: "filew", Mode: "strict"}),
+			ff(progen.FileParams{Out: "d", Prod: "filew"}), ff(progen.FileParams{Out: "ss", Prod: "splitw", Late: true}))
+	}
+	return out
+}
+
 // CrashCase is the replayable unit of C05.
 type CrashCase struct {
 	Shape    DfCase `json:"shape"`
@@ -66,8 +87,8 @@ type CrashCase struct {
 	Handled bool `json:"handled,omitempty"`
 	// JobsCatch: the monitors of the running jobs record the signal
 	// ("_errors: Caught signal terminated") instead of vanishing.
-	JobsCatch bool `json:"jobs_catch,omitempty"`
-	Effect   string `json:"effect,omitempty"`
+	JobsCatch bool   `json:"jobs_catch,omitempty"`
+	Effect    string `json:"effect,omitempty"`
 }
 
 type crashOutcome struct {
@@ -86,9 +107,13 @@ func evalCrash(c CrashCase, ref *progen.RefResult, p *progen.Program) crashOutco
 		return out
 	}
 	defer os.RemoveAll(dir)
-	o1 := Options{PsDir: dir, CrashAt: c.CrashAt, Torn: c.Torn, MrpPid: 4242, PermSite: nil, JobsCatchSignal: c.JobsCatch}
+	vm := ""
+	if c.Shape.Ff != nil {
+		vm = c.Shape.Ff.Mode
+	}
+	o1 := Options{PsDir: dir, CrashAt: c.CrashAt, Torn: c.Torn, MrpPid: 4242, PermSite: nil, JobsCatchSignal: c.JobsCatch, VdrMode: vm}
 	if c.Handled {
-		o1 = Options{PsDir: dir, SignalAt: c.CrashAt, MrpPid: 4242, JobsCatchSignal: c.JobsCatch}
+		o1 = Options{PsDir: dir, SignalAt: c.CrashAt, MrpPid: 4242, JobsCatchSignal: c.JobsCatch, VdrMode: vm}
 	}
 	inc1 := Run(p, c.Shape.Schedule, o1)
 	out.inc1 = inc1
@@ -119,7 +144,7 @@ func evalCrash(c CrashCase, ref *progen.RefResult, p *progen.Program) crashOutco
 	var midRerun []string
 	var inc2 *Result
 	if c.Crash2At > 0 {
-		mid := Run(p, Schedule{}, Options{PsDir: dir, Resume: true, CrashAt: c.Crash2At, MrpPid: pid})
+		mid := Run(p, Schedule{}, Options{PsDir: dir, Resume: true, CrashAt: c.Crash2At, MrpPid: pid, VdrMode: vm})
 		if mid.Crashed {
 			// jobs the middle incarnation ran although the first one had
 			// recorded their completion count against it
@@ -135,12 +160,12 @@ func evalCrash(c CrashCase, ref *progen.RefResult, p *progen.Program) crashOutco
 			}
 			os.Remove(filepath.Join(dir, "ps", "_lock"))
 			pid = 4444
-			inc2 = Run(p, Schedule{}, Options{PsDir: dir, Resume: true, MrpPid: pid})
+			inc2 = Run(p, Schedule{}, Options{PsDir: dir, Resume: true, MrpPid: pid, VdrMode: vm})
 		} else {
 			inc2 = mid
 		}
 	} else {
-		inc2 = Run(p, Schedule{}, Options{PsDir: dir, Resume: true, MrpPid: pid})
+		inc2 = Run(p, Schedule{}, Options{PsDir: dir, Resume: true, MrpPid: pid, VdrMode: vm})
 	}
 	out.inc2 = inc2
 	if inc2.Err != "" {
@@ -168,7 +193,20 @@ func evalCrash(c CrashCase, ref *progen.RefResult, p *progen.Program) crashOutco
 		out.viol = append(out.viol, fmt.Sprintf("restarted pipestance ended %s: %s: %s", inc2.State, inc2.FatalFq, firstLine(inc2.FatalLog)))
 		return out
 	}
-	if inc2.TopOuts == nil {
+	if c.Shape.Ff != nil {
+		// file programs: the reference is the uninterrupted run itself
+		base := fileBaseline(c.Shape, p)
+		if base == nil {
+			out.note = "no-baseline"
+			return out
+		}
+		if got := normOuts(inc2); got != base.outs {
+			out.viol = append(out.viol, "final outputs after restart differ from the uninterrupted run: "+firstDiff(base.outs, got))
+		}
+		if got := outsTree(inc2); got != base.tree {
+			out.viol = append(out.viol, "the outs/ directory after restart differs from the uninterrupted run: "+firstDiff(base.tree, got))
+		}
+	} else if inc2.TopOuts == nil {
 		out.viol = append(out.viol, "restarted pipestance has no readable top-level outputs: "+inc2.TopOutsText)
 	} else if d := progen.EqSlack(ref.TopOuts, inc2.TopOuts, "outs"); d != "" {
 		out.viol = append(out.viol, "final outputs after restart differ from the uninterrupted run: "+d)
@@ -184,6 +222,66 @@ func evalCrash(c CrashCase, ref *progen.RefResult, p *progen.Program) crashOutco
 		out.viol = append(out.viol, "job "+k+" had recorded its completion before the interruption but was executed again")
 	}
 	return out
+}
+
+type fileBase struct{ outs, tree string }
+
+var (
+	fileBaseMu sync.Mutex
+	fileBases  = map[string]*fileBase{}
+)
+
+var uniqDirRe = regexp.MustCompile(`-u[0-9a-f]{10}`)
+
+// normOuts: the final top-level _outs with the scratch location and the
+// attempt uniquifiers (pid and time dependent) abstracted.
+func normOuts(r *Result) string {
+	return uniqDirRe.ReplaceAllString(strings.ReplaceAll(r.TopOutsText, r.PsPath, "<ps>"), "-u<uniq>")
+}
+
+// outsTree lists the regular files below <ps>/outs.
+func outsTree(r *Result) string {
+	var lines []string
+	for p, n := range r.Tree {
+		if rel := strings.TrimPrefix(p, r.PsPath); strings.HasPrefix(rel, "/outs/") {
+			_ = n // the content names the job directory that wrote it, whose name depends on pid and time
+			lines = append(lines, rel)
+		}
+	}
+	sort.Strings(lines)
+	return strings.Join(lines, "\n")
+}
+
+func firstDiff(want, got string) string {
+	w, g := strings.Split(want, "\n"), strings.Split(got, "\n")
+	for i := 0; i < len(w) || i < len(g); i++ {
+		var a, b string
+		if i < len(w) {
+			a = w[i]
+		}
+		if i < len(g) {
+			b = g[i]
+		}
+		if a != b {
+			return fmt.Sprintf("line %d: got %q, the uninterrupted run has %q", i+1, strings.TrimSpace(b), strings.TrimSpace(a))
+		}
+	}
+	return "(no difference)"
+}
+
+func fileBaseline(sh DfCase, p *progen.Program) *fileBase {
+	fileBaseMu.Lock()
+	defer fileBaseMu.Unlock()
+	if b, ok := fileBases[sh.Name()]; ok {
+		return b
+	}
+	var b *fileBase
+	r := Run(p, sh.Schedule, Options{MrpPid: 4242, VdrMode: sh.Ff.Mode})
+	if r.Err == "" && r.State == "complete" {
+		b = &fileBase{outs: normOuts(r), tree: outsTree(r)}
+	}
+	fileBases[sh.Name()] = b
+	return b
 }
 
 func crashSig(v string, effect string) string {
@@ -223,7 +321,10 @@ func CrashCheck() {
 			os.Exit(2)
 		}
 		p := c.Shape.Build()
-		ref, _ := progen.Interpret(p)
+		var ref *progen.RefResult
+		if c.Shape.Ff == nil {
+			ref, _ = progen.Interpret(p)
+		}
 		o := evalCrash(c, ref, p)
 		r.Eval("replay")
 		r.Sample(c)
@@ -238,9 +339,9 @@ func CrashCheck() {
 		}
 		r.Finish()
 	}
-	shapes := Shapes(true)
+	shapes := append(Shapes(true), CrashFileShapes(r.Thorough())...)
 	if !ev.IsWorker() {
-		r.Rule = "for each pipeline shape (linear chain, consumer sorting before its producer, split stage, run-time forks, run-time disabled branch, mapped call in a sub-pipeline; thorough: 6 more) " +
+		r.Rule = "for each pipeline shape (linear chain, consumer sorting before its producer, split stage, run-time forks, run-time disabled branch, mapped call in a sub-pipeline, 6 more; and pipelines whose top-level outputs are files that post-processing moves to outs/: 2, thorough 6 - for these the final _outs text and the outs/ tree are compared with the uninterrupted run's) " +
 			"the uninterrupted run on the real runtime yields a numbered history of N file-system effects of mrp and of the jobs; for EVERY n in 1..N the run is repeated and the process dies at effect n " +
 			"(the effect and everything after it suppressed; for plain file writes also the torn variants 'empty file' and 'first half'), the stale _lock is removed, and a new incarnation re-attaches " +
 			"through ReattachToPipestance+Reset+RestartLocalJobs+LoadMetadata and runs to the end; for EVERY n also the handled-signal variant: a termination signal arrives before effect n, the process keeps running while a critical section is open (util.EnterCriticalSection), then the registered handlers run (Pipestance.HandleSignal) and the process is dead; the lock must be gone WITHOUT operator help and the restart must succeed the same way; both kinds of interruption are run twice: with the running jobs vanishing without a trace, and with their monitors recording '_errors: Caught signal terminated' as mrjob does on SIGTERM (the restart then finds failed jobs next to queued ones); thorough adds a second crash at every effect of the restart for two shapes. " +
@@ -272,11 +373,17 @@ func CrashCheck() {
 		if p == nil {
 			continue
 		}
-		ref, err := progen.Interpret(p)
-		if err != nil {
-			continue
+		var ref *progen.RefResult
+		vm := ""
+		if sh.Ff != nil {
+			vm = sh.Ff.Mode
+		} else {
+			var err error
+			if ref, err = progen.Interpret(p); err != nil {
+				continue
+			}
 		}
-		base := Run(p, sh.Schedule, Options{MrpPid: 4242})
+		base := Run(p, sh.Schedule, Options{MrpPid: 4242, VdrMode: vm})
 		if base.Err != "" || base.State != "complete" {
 			if si%16 == 0 || true {
 				if k, _, _ := ev.WorkerIndex(); k == 0 {
